@@ -1,33 +1,9 @@
 // vh is the single engine binary of the harness: vh -engine <name> -tier quick|thorough
 // -seed N -shard k -shards K -out result.json -journal file [-only caseid].
 // It is built in three modes (vt / race / plain), see DESIGN.md 2.1.
+// Engines are linked in by the eng_*.go files next to this one.
 package main
 
-import (
-	"fmt"
-	"os"
+import "verifharness/internal/reg"
 
-	"verifharness/internal/ev"
-	"verifharness/internal/reg"
-
-	_ "verifharness/engines/smoke"
-)
-
-func main() {
-	env := ev.NewEnvFromFlags()
-	if env.Engine == "list" || env.Engine == "" {
-		for _, n := range reg.Names() {
-			fmt.Println(n)
-		}
-		return
-	}
-	e, ok := reg.Get(env.Engine)
-	if !ok {
-		fmt.Fprintln(os.Stderr, "unknown engine", env.Engine)
-		os.Exit(3)
-	}
-	e.Run(env)
-	env.Finish()
-	// Background goroutines of the code under test (tickers) must not keep a vt process alive.
-	os.Exit(0)
-}
+func main() { reg.Main() }
